@@ -51,18 +51,15 @@ type SwapV2 struct {
 }
 
 func (s *SwapV2) GetBestTradeExactIn(ctx context.Context, outId, inId uint64, inAmount *big.Int, maxHops int32) *Trade {
-	pairs := s.swapPools(ctx)
-
-	s.muPairs.RLock()
-	defer s.muPairs.RUnlock()
+	// The pool list is copied under the pairs lock. The route search itself only takes per-pair locks and must not
+	// hold the pairs lock: a transaction that marks a pair dirty holds that pair's order lock while it waits for
+	// the pairs lock, so holding both here in the opposite order deadlocks the node.
+	pairs := s.SwapPools(ctx)
 
 	return s.trader.GetBestTradeExactIn(ctx, pairs, types.CoinID(outId), NewTokenAmount(types.CoinID(inId), inAmount), maxHops)
 }
 func (s *SwapV2) GetBestTradeExactOut(ctx context.Context, inId, outId uint64, outAmount *big.Int, maxHops int32) *Trade {
-	pairs := s.swapPools(ctx)
-
-	s.muPairs.RLock()
-	defer s.muPairs.RUnlock()
+	pairs := s.SwapPools(ctx) // see GetBestTradeExactIn
 
 	return s.trader.GetBestTradeExactOut(ctx, pairs, types.CoinID(inId), NewTokenAmount(types.CoinID(outId), outAmount), maxHops)
 }
